@@ -6,6 +6,7 @@
   steps are read from the source (`Bita.Gen.Facts`); the file system is universally quantified.
 -/
 import Bita.Proofs.CliFs
+import Bita.Proofs.OptionsCompose
 
 namespace Bita.Props.C14
 open Bita Bita.Gen Bita.Proofs
@@ -78,5 +79,28 @@ example :
 every run; F15 repair): what reaches the comparison is the value that was typed, not its first
 64 bytes. -/
 theorem pin_length_checked_fact : Gen.pinLengthChecked = true := by decide
+
+
+/-! ### From the command line (src/cli.rs modelled in `Bita.Model.Options`, tied by `l1 opts`) -/
+
+/-- (c) from the texts: if the output exists and neither `--force-create` nor `--seed-output` is on
+the command line, then whatever else is (seeds - the output's own name among them -, a pin, any
+archive), the clone is refused and the file system is unchanged: the flags `clone_cmd` sees are
+exactly the ones given. -/
+theorem cli_refused_output_exists (H : Bytes → Bytes) (decomp : Nat → Bytes → Nat → Option Bytes)
+    (a : Options.CloneArgs) (p : Options.CloneParsed) (hp : Options.parseClone a = .ok p)
+    (fs : Fs) (n : Node) (hout : fs.get a.output = some n) (hf : a.force = false) (hs : a.seedOutput = false) :
+    let r := Cli.clone H decomp p.cmd fs
+    r.ok = false ∧ r.fs = fs := by
+  obtain ⟨ho, _, hfl, _⟩ := Proofs.parseClone_ok a p hp
+  exact clone_refused_exists H decomp p.cmd fs n (ho ▸ hout) (by rw [hfl]; exact hf) (by rw [hfl]; exact hs)
+
+/-- (b) from the texts: a `--verify-header` text that is given always becomes a pin (it is never
+dropped), and that pin is what the text denotes - so with (b) above, a text that does not denote
+the archive's header checksum refuses the clone without touching anything. -/
+theorem cli_pin_is_never_dropped (a : Options.CloneArgs) (p : Options.CloneParsed)
+    (hp : Options.parseClone a = .ok p) (t : Bytes) (ht : a.verifyHeader = some t) :
+    ∃ v, p.cmd.pin = some v ∧ Options.parseHashSum t = .ok v :=
+  (Proofs.parseClone_ok a p hp).2.2.2.2.2.2.1 t ht
 
 end Bita.Props.C14
